@@ -324,7 +324,7 @@ def sub_script(case):
         raw, items = _ref_items(case)
     devs = []
     outs = []
-    for entry in ('parse_bytes', 'parse', 'parse_hex', 'parse_stream'):
+    for entry in ('parse_bytes', 'parse', 'parse_hex', 'parse_stream', 'parse_hexstr'):
         try:
             if entry == 'parse_bytes':
                 s = Script.parse_bytes(raw)
@@ -332,6 +332,8 @@ def sub_script(case):
                 s = Script.parse(raw)
             elif entry == 'parse_stream':
                 s = Script.parse(io.BytesIO(raw))
+            elif entry == 'parse_hexstr':
+                s = Script.parse(raw.hex())         # the generic entry point given the hexadecimal text
             else:
                 s = Script.parse_hex(raw.hex())
             cmds = list(s.commands)
@@ -361,7 +363,7 @@ def sub_script(case):
         devs.append({'sig': 'Script.%s|%s' % (entry, cls),
                      'detail': {'script': raw.hex()[:200], 'commands': _show(cmds), 'expected': _show(items)}})
         outs.append('dev')
-    return {'devs': devs, 'n': 4, 'out': outs}
+    return {'devs': devs, 'n': 5, 'out': outs}
 
 
 def _show(items):
@@ -481,7 +483,7 @@ def sub_concat(case):
                 outs.append('ok')
         if not _same_items(cmds, ia + ib):
             devs.append({'sig': 'Script.__add__|items_of_sum_differ', 'detail': {'case': case, 'commands': _show(cmds)}})
-    return {'devs': devs, 'n': 4, 'out': outs}
+    return {'devs': devs, 'n': 5, 'out': outs}
 
 
 SUBS = {'varstr_text': sub_varstr_text, 'build': sub_build, 'concat': sub_concat, 'cs': sub_cs, 'cs_nonminimal': sub_cs_nonminimal, 'varstr': sub_varstr, 'num': sub_num,
@@ -635,7 +637,9 @@ def run(ctx):
     ctx.pmap('script', seqs)
     # raw opcode-only scripts hitting the whole-script length heuristics and their neighbours
     raws = []
-    for ln in (1, 2, 32, 33, 34, 63, 64, 65, 66, 68, 69, 70, 74, 75):
+    # ... and twice / half those lengths (a length hint derived from the wrong form of the input: hex digits vs bytes)
+    for ln in (1, 2, 16, 17, 32, 33, 34, 35, 36, 37, 63, 64, 65, 66, 67, 68, 69, 70, 74, 75, 127, 128, 129, 130, 131, 132,
+               137, 138, 139, 140, 148, 149, 150):
         for first in (0x61, 0x02, 0x03, 0x04, 0x30, 0x51, 0x76):
             if first < 0x4c and ln - 1 < first:
                 continue    # would be a truncated push: not a well-formed script
